@@ -13,5 +13,5 @@ Extraction "model.ml" ParsePGDatabase_i ParsePGClass_i ParsePGAttribute_i detect
   PG.C12.Inst.m_run_calls PG.C12.Inst.m_run_calls_id PG.C12.Inst.m_result_string PG.C12.Inst.m_MarshalJSON
   PG.C12.Inst.m_SummaryString PG.C12.Inst.m_main PG.C12.Inst.m_dispatch PG.C12.Inst.m_run PG.C12.Inst.m_plain_dump
   PG.C12.Inst.abstract_of PG.C12.Inst.wf_acluster_b PG.C12.Inst.mk_role PG.C12.Inst.auth_file PG.C12.Inst.auth_ok
-  PG.C12.Inst.x_creds PG.C12.Inst.expected_answer PG.C12.Inst.x_dump PG.C12.Inst.x_list_databases PG.C12.Inst.x_cli
+  PG.C12.Inst.x_creds PG.C12.Inst.x_answer PG.C12.Inst.x_dump PG.C12.Inst.x_list_databases PG.C12.Inst.x_cli
   PG.C12.Inst.i_env PG.C12.Inst.c12_decode PG.C12.Spec.restrict PG.C12.Model.row_keys PG.C12.Lib.row_get.
